@@ -198,7 +198,9 @@ def generate(ctx):
             yield 'pe_extreme', {'kind': kind, 'tref_range': rg, 'seed': seed(), 'K': 3, 'scales': _axis_scales(rng, None if not quick else 8)}
     yield 'sw_extreme', {'seed': seed(), 'scales': _axis_scales(rng, None if not quick else 8)}
     # multi-step digital filter initialisation: SI windows that are whole multiples of the SI step
-    pairs = [[21600.0, 1200.0], [21600.0, 1800.0], [10800.0, 600.0], [3600.0, 450.0]]
+    # (window, unit, step, unit): given the way a user writes them (pint quantities in hours / minutes); the conversion
+    # to seconds inside nondimensionalize rounds differently from a value already given in seconds - both are checked
+    pairs = [[6, 'hour', 20, 'minute'], [6, 'hour', 30, 'minute'], [3, 'hour', 10, 'minute'], [1, 'hour', 7.5, 'minute']]
     yield 'dfi', {'eq': 'shallow_water', 'pairs': pairs, 'scales': TIME_UNIT_SCALES, 'seed': seed()}
     yield 'dfi', {'eq': 'dry', 'pairs': pairs[:1] + pairs[3:] if quick else pairs, 'scales': TIME_UNIT_SCALES, 'seed': seed()}
     # winds <-> vorticity/divergence through the library's jitted helpers, several scales in one process, both orders
@@ -692,22 +694,27 @@ def r_dfi(ctx, a):
     rng = np.random.Generator(np.random.PCG64(a['seed']))
     labels = ['default'] + a['scales']
     p = _sw_problem(rng) if a['eq'] == 'shallow_water' else _pe_problem(rng, 'dry', 3)
-    for W, S in a['pairs']:
+    u = m['units']
+    for Wv, Wu, Sv, Su in a['pairs']:
+        Wq = Wv * u(Wu); Sq = Sv * u(Su); S_si = float(Sq.to('second').magnitude); W_si = float(Wq.to('second').magnitude)
         Rn, Rs = [], []
         for sv in labels:
             if a['eq'] == 'shallow_water':
                 specs, g, c, st, eq = _sw_setup(sv, p); solver = ti.crank_nicolson_rk2
             else:
                 specs, g, c, st, eq = _pe_setup(sv, p, 'dry'); solver = ti.crank_nicolson_rk2
-            nd = lambda x: float(_ND(specs, x, 'second'))
-            w = ti._dfi_lanczos_weights(nd(W), nd(W), nd(S))
-            Rn.append({'number of steps in each half of the window': np.asarray([float(len(w))]), 'lanczos weights (padded)': np.pad(w, (0, 64 - len(w)))})
-            filt = _filters_si(['exponential'], g, specs, S)
+            W = float(specs.nondimensionalize(Wq)); S = float(specs.nondimensionalize(Sq))
+            w = ti._dfi_lanczos_weights(W, W, S)
+            w2 = ti._dfi_lanczos_weights(float(_ND(specs, W_si, 'second')), float(_ND(specs, W_si, 'second')), float(_ND(specs, S_si, 'second')))
+            Rn.append({'number of steps in each half of the window (window/step given in %s/%s)' % (Wu, Su): np.asarray([float(len(w))]),
+                       'number of steps in each half of the window (window/step given in seconds)': np.asarray([float(len(w2))]),
+                       'lanczos weights (padded)': np.pad(w, (0, 64 - len(w))), 'lanczos weights (seconds, padded)': np.pad(w2, (0, 64 - len(w2)))})
+            filt = _filters_si(['exponential'], g, specs, S_si)
             with jax.disable_jit():        # the scans are executed step by step: no compilation per scale
-                out = ti.digital_filter_initialization(eq, solver, filt, nd(W), nd(W), nd(S))(st)
+                out = ti.digital_filter_initialization(eq, solver, filt, W, W, S)(st)
             gm = (len(w) + 1) * _gmax(out, st)
             Rs.append(_sw_si(specs, out, '', gm) if a['eq'] == 'shallow_water' else _pe_state_si(specs, g, out, '', gm))
-        ctx.count('dfi:%s window=%gs step=%gs' % (a['eq'], W, S))
+        ctx.count('dfi:%s window=%g %s step=%g %s' % (a['eq'], Wv, Wu, Sv, Su))
         _cmp(ctx, f'digital filter initialization ({a["eq"]}): step count and weights do not depend on the time unit', Rn, labels)
         _cmp(ctx, f'digital filter initialization ({a["eq"]}): filtered multi-step state equal in SI under every scale', Rs, labels)
 
@@ -787,15 +794,33 @@ ALLOWED_THRESHOLDS = {
 }
 
 
+# truncations (int / floor / ceil / trunc of a true quotient, floor division) of the reviewed tree; all act on integers
+# (shapes, wavenumbers, device counts) except the phase wrap of radiation.py, which is continuous modulo 2 pi:
+ALLOWED_TRUNCATIONS = {
+    ('fourier', 'real_basis_derivative', '(i + 1) // 2'),
+    ('fourier', 'real_basis_derivative_with_zero_imag', 'i // 2'),
+    ('jax_numpy_utils', '_allgather_matmul_twoway', 'axis_size // 2'),
+    ('jax_numpy_utils', '_matmul_reducescatter_twoway', 'axis_size // 2'),
+    ('jax_numpy_utils', 'indexed_computation', 'axis_size // 2'),
+    ('radiation', 'time_to_orbital_time', 'orbital_time // (2 * jnp.pi)'),
+    ('spherical_harmonic', '_round_to_multiple', 'math.ceil(x / multiple)'),
+    ('spherical_harmonic', 'basis', 'modal_pad_x // 2'),
+}
+
+
 def _structural(e):
     """operand that is a shape / rank / length / index, not a physical quantity."""
     src = ast.unparse(e)
-    return bool(re.search(r'(ndim|\.size|\.shape|\blen\(|\.layers|_nodes|wavenumbers|\.count\(|\bsteps\b|num_|\blength\b|\.index\()', src))
+    return bool(re.search(r'(ndim|\.size|\.shape|\blen\(|\.layers|_nodes|wavenumbers|\.count\(|\bsteps\b|num_|\blength\b|\.index\(|axis_size)', src))
+
+
+def _nonstruct(e):
+    return not isinstance(e, ast.Constant) and not _structural(e)
 
 
 def scan_thresholds(repo):
     d = os.path.join(repo, 'dinosaur')
-    hits = []
+    hits = []; trunc = []
     for f in sorted(os.listdir(d)):
         if not f.endswith('.py') or f.endswith('_test.py'): continue
         try:
@@ -823,15 +848,27 @@ def scan_thresholds(repo):
                     nm = node.func.attr if isinstance(node.func, ast.Attribute) else node.func.id if isinstance(node.func, ast.Name) else ''
                     if nm in ('isclose', 'allclose', 'assert_allclose', 'assert_array_almost_equal', 'assert_almost_equal'):
                         hits.append((mod, fn.name, ast.unparse(node), node.lineno))
-    seen = set(); out = []
-    for h in hits:
-        if h not in seen: seen.add(h); out.append(h)
-    return out
+                    elif nm in ('int', 'floor', 'ceil', 'trunc', 'fix') and any(
+                            isinstance(c, ast.BinOp) and isinstance(c.op, ast.Div) and (_nonstruct(c.left) or _nonstruct(c.right))
+                            for arg in node.args for c in ast.walk(arg)):
+                        trunc.append((mod, fn.name, ast.unparse(node), node.lineno))
+                elif isinstance(node, ast.BinOp) and isinstance(node.op, ast.FloorDiv) and (_nonstruct(node.left) or _nonstruct(node.right)):
+                    trunc.append((mod, fn.name, ast.unparse(node), node.lineno))
+    def uniq(l):
+        seen = set(); out = []
+        for h in l:
+            if h not in seen: seen.add(h); out.append(h)
+        return out
+    return uniq(hits), uniq(trunc)
 
 
 def r_threshold_scan(ctx, a):
     repo = os.environ.get('DINOSAUR_REPO', '/repo')
-    hits = scan_thresholds(repo)
+    hits, trunc = scan_thresholds(repo)
+    tnew = [f'dinosaur/{m_}.py:{ln}: {fn}: {src}' for m_, fn, src, ln in trunc if (m_, fn, src) not in ALLOWED_TRUNCATIONS]
+    told = [f'dinosaur/{m_}.py:{ln}: {fn}: {src}' for m_, fn, src, ln in trunc if (m_, fn, src) in ALLOWED_TRUNCATIONS]
+    ctx.table_obligation('no truncation (int/floor/ceil/trunc, //) of a non-structural quotient inside function bodies beyond the documented exceptions',
+                         not tnew, {'new': tnew, 'documented exceptions present': told})
     new = [f'dinosaur/{m_}.py:{ln}: {fn}: {src}' for m_, fn, src, ln in hits if (m_, fn, src) not in ALLOWED_THRESHOLDS]
     old = [f'dinosaur/{m_}.py:{ln}: {fn}: {src}' for m_, fn, src, ln in hits if (m_, fn, src) in ALLOWED_THRESHOLDS]
     ctx.table_obligation('no absolute numeric threshold / tolerance test inside function bodies beyond the documented exceptions',
